@@ -188,7 +188,9 @@ DEFAULT_SIZES = dict(nq=2, nu=2, nla_g=1, nla_gamma=1, nla_c=1, nla_tau=1, nla_N
 class SysStub:
     is_stub = True
 
-    def __init__(self, k, sizes=None, friction=True, t0=None, mu=None):
+    def __init__(self, k, sizes=None, friction=True, t0=None, mu=None, layout=None):
+        """layout: friction directions per contact, e.g. (0, 2) = a frictionless contact assembled before a frictional
+        one (one normal force each; a frictionless contact defines no friction law, like Sphere2Plane with mu = 0)"""
         self.k = k
         sz = dict(DEFAULT_SIZES)
         sz.update(sizes or {})
@@ -196,6 +198,8 @@ class SysStub:
             setattr(self, a, b)
         if not friction:
             self.nla_F = 0
+        if layout is not None:
+            self.nla_N, self.nla_F = len(layout), sum(layout)
         self._memo = {}
         self._count = {}
         self.t0 = S.var("t0") if t0 is None else t0
@@ -212,7 +216,29 @@ class SysStub:
         self.mu = S.var("mu") if mu is None else mu
         k.assume(self.mu >= 0)
         self._contacts = []
-        if self.nla_N and self.nla_F:
+        self.mus = [self.mu]
+        if layout is not None:
+            from cardillo.math.prox import Sphere
+
+            class _Contact:
+                pass
+
+            self.mus, f0 = [], 0
+            for i, nf in enumerate(layout):
+                c = _Contact()
+                c.la_NDOF = np.array([i])
+                c.la_FDOF = np.arange(f0, f0 + nf)
+                c.qDOF = np.arange(self.nq)
+                c.uDOF = np.arange(self.nu)
+                mu_i = S.var(f"mu{i}")
+                k.assume(mu_i >= 0)
+                self.mus.append(mu_i)
+                with npshim.active(True):
+                    c.friction_laws = [([0], list(range(nf)), Sphere(mu_i))] if nf else []
+                c.gamma_F = (lambda t, q, u, sl=slice(f0, f0 + nf): self.gamma_F(t, q, u)[sl])
+                f0 += nf
+                self._contacts.append(c)
+        elif self.nla_N and self.nla_F:
             from cardillo.math.prox import Sphere
 
             class _Contact:
@@ -249,8 +275,10 @@ class SysStub:
         return v.copy() if isinstance(v, np.ndarray) else v
 
     def get_contribution_list(self, name):
-        if name in ("gamma_F", "g_N"):
+        if name == "g_N":
             return list(self._contacts)
+        if name == "gamma_F":
+            return [c for c in self._contacts if c.friction_laws]
         return []
 
     def step_callback(self, t, q, u):
